@@ -51,6 +51,13 @@ add("C07", "differential property testing (rapid): Traverse vs a stepwise Index 
     "For generated trees (all kinds, nil slots, Conditions with/without stack expressions, aliases, index options) every generated path - and all paths up to length 3 over [-1,width+1] for a quarter of the small trees - is given to Traverse and to a reference that uses only Index/ConvertStack/ConvertCondition/Expression; value (by underlying identity) and flag must agree. Exploration; exhaustive only for the short-path sub-space of the sampled trees.",
     "Trusted: Index (decided by C01/C08), the converters. Zero-valued Stack elements are C08's domain.")
 
+add("C12", "differential property testing (rapid): one description built all-native vs built under a generated alias/pointer wrap assignment; converter probes",
+    "The wrap assignment must be unobservable: String, IsEqual (both directions and with wrapped arguments), Unmarshal, Traverse on generated paths, IsNesting/Condition.Len/Condition.String at every node, Transfer and Defrag are compared between the aliased and the native build of the same generated description; ConvertStack/ConvertCondition are probed with 13 positive and 19 negative forms. Exploration only.",
+    "Trusted: the builder producing structurally identical trees; alias types declared as the README prescribes (with and without a wrapped String).")
+add("C16", "structured generation (rapid) and coverage-guided native fuzzing of Marshal inputs with a semantic oracle inside the target",
+    "Generated []any trees with hostile constructs (empty/single-element envelopes, CONDITION rows with missing/surplus/wrongly typed fields, non-operators, typed nils, zero Stacks, mis-cased labels) are marshalled into zero, initialised, capacity-limited and read-only receivers: no panic, nil error implies an initialised receiver, follow-up queries return, and on the well-formed subset the decoded structure matches the input entry by entry. Thorough adds 120 s of native fuzzing over the same generator via rapid.MakeFuzz. Exploration only.",
+    "Trusted: the well-formedness predicate and the entry-by-entry matcher. A non-string first element may be rejected or stored (docs silent).")
+
 NOT_YET = {}
 
 ALL = ["C%02d" % i for i in range(1, 21)]
